@@ -343,6 +343,8 @@ static char *led_line(char *pref, char *post, char *ai, int ai_max, int *left,
 			break;
 		case TK_CTL('r'):
 			y = term_read();
+			if ((y & 0xc0) == 0xc0)		/* not a register; skip the character */
+				led_readchar(y, 0);
 			if (y > 0 && reg_get(y, &lnmode))
 				sbuf_str(sb, reg_get(y, &lnmode));
 			break;
